@@ -295,6 +295,7 @@ def seq_ops():
         for ei in range(len(SEQ_ENTRIES)):
             ops.append(("set", ki, ei))
         ops.append(("del", ki))
+        ops.append(("restore", ki))   # read the entry, modify it in place, store the same object again
     ops.append(("commit",))
     ops.append(("reopen",))
     return ops
@@ -337,6 +338,20 @@ def run_seq(seq, w, tag):
                 continue
             del idx[k]
             del work[k]
+        elif op[0] == "restore":
+            from dvc_data.hashfile.hash_info import HashInfo
+            from dvc_data.hashfile.meta import Meta
+
+            k = SEQ_KEYS[op[1]]
+            if k not in work:
+                continue
+            e = idx[k]
+            e.meta = Meta(size=((e.meta.size or 0) if e.meta else 0) + 7, isexec=True)
+            e.hash_info = HashInfo("md5", ref.md5(b"restored-%d" % steps))
+            e.loaded = None
+            idx[k] = e
+            work[k] = DataIndexEntry(key=k, meta=Meta(size=e.meta.size, isexec=True),
+                                     hash_info=HashInfo("md5", e.hash_info.value), loaded=None)
         elif op[0] == "commit":
             idx.commit()
         elif op[0] == "reopen":
